@@ -123,4 +123,75 @@ def run(ctx: Ctx) -> bool:
     ctx.check(not bad, "R-C07.5", key, tc.where, {"cases": n, "counterexamples": bad[:3], "n_counterexamples": len(bad)},
               "a comptime function calling a Guppy function that borrows an argument keeps the pre-call wires (or skips an argument, or "
               "swallows the failure to update one)")
+    _undeclared(ctx, tc, fparam, vararg)
     return True
+
+
+def _undeclared(ctx: Ctx, tc, fparam: str, vararg: str) -> None:
+    """Callees whose DECLARED type has no inputs although their calls borrow (custom checkers without annotations such as
+    `barrier(*args)`, whose checker builds `FuncInput(t, InputFlags.Inout)`; overload sets, whose type is a dummy).
+
+    `trace_call` is interpreted with one argument on such a callee (`func.ty.inputs == []`, `has_signature` false).  Decided: the
+    argument -- consumed by `_use_wire` before the call -- is handed back (`update_packed_value` on it with the post-call wire) or
+    the call is refused with an error; returning normally without either loses the borrowed value.
+    The instance exists only while some custom call checker of the std library synthesises a borrowing input.
+    """
+    import ast
+
+    idx = ctx.idx
+    key = f"{tc.qualname}#borrowed-argument-of-a-callee-without-declared-inputs-handed-back"
+    chk_mod = idx.module("guppylang_internals.std._internal.checker")
+    borrowing = []
+    for m in idx.iter_funcs((chk_mod.name,)):
+        for call in ast.walk(m.node):
+            if isinstance(call, ast.Call) and dotted(call.func).endswith("FuncInput") and any(dotted(a_).endswith("InputFlags.Inout") for a_ in call.args[1:]):
+                borrowing.append(m.qualname.rsplit(".", 2)[-2] + "." + m.node.name if "." in m.qualname else m.qualname)
+    if not borrowing:
+        return
+    updates: list = []
+    compiled = [False]
+    arg = Tok("pyarg0", __ident__=1)
+    var_box: list = []
+
+    def h_var(node, e, env):
+        vals = [e.ev(x, env) for x in node.args]
+        v = Tok("var1", name=vals[0], ty=vals[1], static_value=arg, __class__="ComptimeVariable", __ident__=1)
+        var_box.append(v)
+        return v
+
+    dfg = Tok("dfg", builder=Tok("builder", __ident__=1), __getitem__=lambda k: Tok(("postcall_wire(" if compiled[0] else "precall_wire(") + k.name + ")", __ident__=1),
+              __methods__={"__setitem__": lambda r, x: None}, __ident__=1)
+    state = Tok("state", dfg=dfg, node=Tok("node"), ctx=Tok("ctx"), globals=Tok("globals"), __ident__=1)
+    func = Tok("func", __class__="CustomFunctionDef", __bases__=("CallableDef",), has_signature=False, name="barrier", ty=Tok("dummy_ty", inputs=[], __ident__=1),
+               __methods__={"synthesize_call": lambda r, x: (Tok("call_node"), Tok("ret_ty"))}, __ident__=1)
+
+    def h_compile(r, x):
+        compiled[0] = True
+        return Tok("ret_wire")
+
+    def h_update(node, e, env):
+        updates.append([e.ev(x, env) for x in node.args])
+        return True
+
+    env = {fparam: func, vararg: (arg,), "get_tracing_state": lambda node, e, env: state,
+           "guppy_object_from_py": lambda node, e, env: Tok("obj(pyarg0)", _ty=Tok("ty(pyarg0)", __ident__=1), __methods__={"_use_wire": lambda r, x: Tok("precall_wire")}, __ident__=1),
+           "ComptimeVariable": h_var, "next": lambda node, e, env: "%tmp1", "Locals": lambda node, e, env: Tok("locals"), "Context": lambda node, e, env: Tok("context"),
+           "with_loc": lambda node, e, env: e.ev(node.args[1], env), "with_type": lambda node, e, env: e.ev(node.args[1], env),
+           "PlaceNode": lambda node, e, env: Tok("place_node", place=e.ev(node.args[0], env)),
+           "ExprCompiler": lambda node, e, env: Tok("expr_compiler", __methods__={"compile": h_compile}),
+           "GuppyObject": lambda node, e, env: Tok("guppy_object", _ty=e.ev(node.args[0], env), wire=e.ev(node.args[1], env)),
+           "update_packed_value": h_update, "unpack_guppy_object": lambda node, e, env: Tok("result")}
+    try:
+        out = FlagNameEval(idx, TF, max_depth=6).run(tc.node.body, env)
+        raised = str(out[1]) if out[0] == "raise" else None
+    except Raised as e:
+        raised = e.cls or str(e)
+    except Unsupported as e:
+        ctx.undecided("R-C07.5", key, tc.where, str(e))
+        return
+    handed_back = any(v and v[0] is arg for v in updates)
+    ctx.check(handed_back or raised is not None, "R-C07.5", key, tc.where,
+              {"callee": "declared type without inputs (has_signature false), call checked by a custom checker", "borrowing_custom_checkers": sorted(set(borrowing)),
+               "argument_handed_back": handed_back, "outcome": raised or "returns normally"},
+              "a comptime function that passes a non-copyable value to `barrier(q)` / `state_result(tag, q)` / an overloaded function loses it: "
+              "the borrowed value is never handed back (a later use is rejected as a second use, and leaking it goes unnoticed)")
